@@ -20,7 +20,7 @@ def run(rep: Report, repo: Repo):
         'levels in order over [op_start, op_stop); GPU threads outside the range return; stores of a thread go to its own output '
         'waveform or through atomic add. A two-line induction (DESIGN.md C07.2) lifts this to "every operand is produced in an earlier level".')
     rep.trusted = ['each line has exactly one driver (C09), so distinct ops of a level write distinct waveforms given the memory map of C08']
-    rep.assumptions = ['NOT DECIDED: correctness of the greedy algorithm for every circuit is argued, not mechanised',
+    rep.assumptions = ['BOUNDED: the schedule is decided by evaluating the levelisation / allocation block on 100 generated stand-in netlists x 8 option combinations; for every circuit it is argued, not mechanised',
                        'scratch-slot sharing by ops with unconnected outputs is outside "signals" and not examined']
     schedule_rules(rep, repo)
     launches(rep, repo)
